@@ -197,8 +197,20 @@ Section Exec.
     let raw := sget (st_mem s) x i in
     mkVal (norm (v_ty vi) raw) (wclass_of (v_ty vi)) false.
 
+  (** [store(x)] writes the accumulator, whose contents C does not define, into x: the cell is
+      POISONED (recorded in the store under the reserved name "!x") until it is assigned again;
+      reading a poisoned cell is [Undecided] *)
+  Definition pkey (x : string) : string := String "!"%char x.
+  Definition poisoned (s : state) (x : string) (i : Z) : bool := negb (sget (st_mem s) (pkey x) i =? 0).
+  Definition poison (s : state) (x : string) (i : Z) : state :=
+    mkSt (sset (st_mem s) (pkey x) i 1) (st_trace s) (st_steps s).
+
+  Definition read_cell_o (s : state) (x : string) (i : Z) (vi : vinfo) : outcome value :=
+    if poisoned s x i then Undecided else Ok (read_cell s x i vi).
+
   Definition write_cell (s : state) (x : string) (i : Z) (vi : vinfo) (v : Z) : state :=
-    mkSt (sset (st_mem s) x i (norm (v_ty vi) v)) (st_trace s) (st_steps s).
+    let m := sset (st_mem s) x i (norm (v_ty vi) v) in
+    mkSt (if poisoned s x i then sset m (pkey x) i 0 else m) (st_trace s) (st_steps s).
 
   (** the char cell an address denotes: the variable of the layout whose extent contains it *)
   Fixpoint cell_at (vars : list (string * vinfo)) (a : Z) : option (string * Z * vinfo) :=
@@ -273,14 +285,14 @@ Section Exec.
                 | Some _ => Ok (mkVal (v_addr vi) W16u false, s)      (* an array name is its address *)
                 | None => do t <- lv_target ev e s;
                           let '(x', i, vi', s1) := t in
-                          Ok (read_cell s1 x' i vi', s1)
+                          do v <- read_cell_o s1 x' i vi'; Ok (v, s1)
                 end
             | None => Unsupported "unknown variable"
             end
         | EIdx _ _ =>
             do t <- lv_target ev e s;
             let '(x, i, vi, s1) := t in
-            Ok (read_cell s1 x i vi, s1)
+            do v <- read_cell_o s1 x i vi; Ok (v, s1)
         | EBin LAnd l r =>
             do a <- ev l s; let '(va, s1) := a in
             do x <- clean va;
@@ -309,7 +321,7 @@ Section Exec.
         | EInc k lv =>
             do t <- lv_target ev lv s;
             let '(x, i, vi, s1) := t in
-            let old := read_cell s1 x i vi in
+            do old <- read_cell_o s1 x i vi;
             let d := match k with PreInc | PostInc => 1 | _ => -1 end in
             let s2 := write_cell s1 x i vi (val old + d) in
             let nw := read_cell s2 x i vi in
@@ -326,7 +338,8 @@ Section Exec.
             let '(x, i, vi, s1) := t in
             do b <- ev r s1; let '(vb, s2) := b in
             if v_const vi then Unsupported "assignment to const" else
-            do v <- arith op (read_cell s2 x i vi) vb;
+            do cur <- read_cell_o s2 x i vi;
+            do v <- arith op cur vb;
             (* the compiler computes x op= e in the width of x *)
             if taint v && match op with Shr | Div => true | _ => false end then Undecided else
             let s3 := write_cell s2 x i vi (val v) in
@@ -432,7 +445,16 @@ Section Exec.
             Ok (CNormal, mkSt (st_mem s1) (EvLoad (val v) :: st_trace s1) (st_steps s1))
         | SStore e =>
             match e with
-            | EVar x => Ok (CNormal, mkSt (st_mem s) (EvStore x :: st_trace s) (st_steps s))
+            | EVar x =>
+                match var_info x with
+                | Some vi =>
+                    match v_len vi with
+                    | None => let s1 := poison s x 0 in
+                              Ok (CNormal, mkSt (st_mem s1) (EvStore x :: st_trace s1) (st_steps s1))
+                    | Some _ => Unsupported "store to an array"
+                    end
+                | None => Ok (CNormal, mkSt (st_mem s) (EvStore x :: st_trace s) (st_steps s))
+                end
             | _ => Unsupported "store to a non-variable"
             end
         | SStrobe x => Ok (CNormal, mkSt (st_mem s) (EvStrobe x :: st_trace s) (st_steps s))
